@@ -78,6 +78,7 @@ def tasks(tier, seed):
         for bc in ('neumann', ['dirichlet', 'neumann']):
             T.append(('bc', d, order, bc, False, 'center', None, nbo))
     T.append(('bcdefaults',))
+    T.append(('bcreuse',))
     T.append(('kron', 2))
     T.append(('kron', 3))
     T.append(('grid',))
@@ -93,6 +94,8 @@ def run_task(rep, task):
         bc_case(rep, *task[1:])
     elif task[0] == 'kron':
         kron_case(rep, task[1])
+    elif task[0] == 'bcreuse':
+        bcreuse_case(rep)
     elif task[0] == 'bcdefaults':
         bcdefaults_case(rep)
     elif task[0] == 'grid':
@@ -172,6 +175,33 @@ def real_matrix(d, order, st, steps, size, dim, bc, bc_params=None, dx=0.25):
     A, b = get_finite_difference_matrix(derivative=d, order=order, stencil_type=st, steps=(np.array(steps) if steps is not None else None), dx=dx, size=size, dim=dim, bc=bc,
                                         bc_params=bc_params)
     return np.asarray(A.todense(), dtype=float), np.asarray(b, dtype=float)
+
+
+def bcreuse_case(rep):
+    """the boundary parameters handed in are the caller's: a list of per-side dictionaries used for several calls (e.g. for the first- and the second-derivative
+    operator) gives the same matrices and vectors as fresh lists, and is unchanged afterwards (ENUMERATED, concrete)"""
+    import copy
+
+    for bc, left, right in (('dirichlet', {'val': 2.5}, {'val': -1.0, 'reduce': True}), (('dirichlet', 'neumann'), {'val': 1.5}, {'val': 0.5, 'neumann_bc_order': 1}),
+                            ('neumann', {'val': 1.0, 'reduce': True}, {'val': 2.0})):
+        shared = [dict(left), dict(right)]
+        before = copy.deepcopy(shared)
+        for call, (d, order) in enumerate(((1, 2), (2, 2), (2, 4), (1, 2))):
+            kw = dict(derivative=d, order=order, stencil_type='center', dx=0.25, size=9, dim=1, bc=bc)
+            name = f'bcreuse/{bc}/call{call}/d{d}/o{order}'
+            try:
+                A1, b1 = get_finite_difference_matrix(bc_params=shared, **kw)
+                A2, b2 = get_finite_difference_matrix(bc_params=[dict(left), dict(right)], **kw)
+            except Exception as e:
+                rep.side(name, False, f'{type(e).__name__}: {e}')
+                break
+            rep.translator += 1
+            same = np.array_equal(A1.toarray(), A2.toarray()) and np.array_equal(b1, b2)
+            intact = shared == before
+            if not same:
+                rep.violation(f'{PID}/boundary-parameters-reused', f'{name}: with a parameter list that was used for an earlier call the result differs from that for fresh parameters (b = {np.asarray(b1).tolist()} vs {np.asarray(b2).tolist()}); '
+                              f'caller list afterwards: {shared}', {'task': ['bcreuse'], 'bc': bc if isinstance(bc, str) else list(bc), 'left': left, 'right': right, 'call': call})
+                break
 
 
 def bcdefaults_case(rep):
@@ -389,6 +419,13 @@ def replay(path):
         ex = np.array([sum(w[i] / 0.25 ** t[1] * uv[(j + int(s[i])) % d['size']] for i in range(len(s))) for j in range(d['size'])])
         print('observed', got.tolist(), 'expected', ex.tolist())
         bad = np.abs(got - ex).max() > 1e-9 * (1 + np.abs(ex).max())
+    elif t[0] == 'bcreuse':
+        from symx.report import Report
+
+        r = Report(PID, 'other', 'quick', 0)
+        bcreuse_case(r)
+        bad = bool(r.violations)
+        print(r.violations[0]['what'] if bad else 'same results with a reused parameter list')
     elif t[0] == 'bcdefaults':
         bc = d['bc'] if isinstance(d['bc'], str) else tuple(d['bc'])
         full = lambda p: {'val': 0.0, 'reduce': False, 'neumann_bc_order': d['order'], **p}
